@@ -71,9 +71,20 @@ def gen_client(ctx):
         yield l.replace("prop=C13", "prop=C08")
 
 def gen_e2e(ctx):
-    """TLS handshake failures, refused AUTH/PBSZ/PROT, truncated TLS data streams over real sockets"""
+    """TLS handshake failures, refused AUTH/PBSZ/PROT, truncated TLS data streams over real sockets; the control connection
+    dropped (with and without TLS close-notify being possible) at every point of single- and multi-line replies"""
+    from props.e2egen import cfg_str, connect, line as eline, R
     for l in C11.gen(ctx):
         yield l.replace("prop=C11", "prop=C08")
+    partials = [b"", b"2", b"200", b"200 o", b"200 ok\r", b"211-status\r\n", b"211-status\r\n line one\r\n", b"211-status\r\n line one\r\n211", b"211-a\r\n211-b\r\n211 en"]
+    for ver in (13, 12):
+        for tls in (1, 0):
+            c = cfg_str(ver=ver, tls=tls, prop="C08", verify="none")
+            for part in partials:
+                for drop in ("X", "R"):
+                    grp = ("r" + part.hex() + "," if part else "") + drop
+                    yield eline(c, [connect(tls=bool(tls)), "noop@" + grp, "isconn", "disc:0", connect(tls=bool(tls)), "noop@" + R(b"200 ok")])
+    ctx["scopes"].append("e2e: control connection closed / reset by the server after each of %d partial single- and multi-line replies x TLS 1.2 / 1.3 / plain" % len(partials))
 
 PROP = {
     "id": "C08",
